@@ -293,6 +293,20 @@ func isCallee(root ast.Node, sel *ast.SelectorExpr) bool {
 	return found
 }
 
+// CheckEffectSites is C18's who-may-call rule on the whole program: mutators of the file system, the
+// process or the environment are called only in package main, and only os.Remove, os.MkdirAll and
+// os.WriteFile (what they are applied to, and when, is decided by interpreting main: props cliEffects).
+func CheckEffectSites(run *core.Run, prog *load.Program) {
+	allowed := map[string]bool{fnRemove: true, fnMkdirAll: true, fnWriteFile: true}
+	for _, s := range EffectSites(prog) {
+		inMain := s.InFn != nil && s.InFn.Pkg() != nil && s.InFn.Pkg().Path() == load.PkgMain
+		run.Check("G-EFF/who-may-call", s.Fn+"→"+s.Callee, s.Pos, inMain && allowed[s.Callee], fmt.Sprintf("%s calls %s: the only file-system/process/environment mutators allowed in moq's packages are os.Remove, os.MkdirAll and os.WriteFile, in package main", s.Fn, s.Callee))
+		run.Sample(map[string]string{"effect_site": s.Pos, "function": s.Fn, "callee": s.Callee})
+	}
+	run.Floor("G-EFF/who-may-call", 3)
+	checkLoaderConfig(run, prog)
+}
+
 // CheckEffects is C18's who-may-call rule.
 func CheckEffects(run *core.Run, prog *load.Program, c *CLI) {
 	sites := EffectSites(prog)
@@ -351,6 +365,10 @@ func CheckEffects(run *core.Run, prog *load.Program, c *CLI) {
 	} else {
 		run.Undecided("G-EFF/remove-only-with-rm", "flag-rm", prog.Pos(c.Main.Decl.Pos()), "no flag named \"rm\" is bound")
 	}
+	checkLoaderConfig(run, prog)
+}
+
+func checkLoaderConfig(run *core.Run, prog *load.Program) {
 	// packages.Config literals: only Mode and Dir may be set (Overlay writes files, BuildFlags/Env can make `go list` rewrite go.mod)
 	for _, pk := range prog.MoqPackages() {
 		for _, f := range pk.Syntax {
